@@ -76,7 +76,12 @@ def join(a, b):
         return ("i", min(a[1], b[1]), max(a[2], b[2]))
     if k in ("arr", "st"):
         if len(a[1]) != len(b[1]):
-            return TOP
+            if k == "arr" and {len(a[1]), len(b[1])} == {4, 8}:
+                a, b = _lanes8(a), _lanes8(b)       # the two lane views of one 256-bit vector
+                if a is None or b is None:
+                    return TOP
+            else:
+                return TOP
         return (k, tuple(join(x, y) for x, y in zip(a[1], b[1])))
     if k == "en":
         d = {}
@@ -101,6 +106,24 @@ def join(a, b):
             return ("clo", a[1], tuple(join(x, y) for x, y in zip(a[2], b[2])))
         return TOP
     return TOP
+
+
+def _lanes8(v):
+    """u32-lane view of a 256-bit vector held as 4 u64 lanes (or 8 u32 lanes); None if the elements are not integers"""
+    if any(x[0] != "i" for x in v[1]):
+        return None
+    if len(v[1]) == 8:
+        return v
+    out = []
+    for x in v[1]:
+        lo, hi = x[1], x[2]
+        if lo < 0 or hi >= 1 << 64:
+            return None
+        if (lo >> 32) == (hi >> 32):
+            out += [("i", lo & 0xFFFFFFFF, hi & 0xFFFFFFFF), ("i", lo >> 32, lo >> 32)]
+        else:
+            out += [("i", 0, 0xFFFFFFFF), ("i", lo >> 32, hi >> 32)]
+    return ("arr", tuple(out))
 
 
 def meet(a, b):
@@ -135,7 +158,12 @@ def widen(old, new, ty_hint=None):
         return ("i", lo, hi)
     if k in ("arr", "st"):
         if len(old[1]) != len(new[1]):
-            return TOP
+            if k == "arr" and {len(old[1]), len(new[1])} == {4, 8}:
+                old, new = _lanes8(old), _lanes8(new)
+                if old is None or new is None:
+                    return TOP
+            else:
+                return TOP
         return (k, tuple(widen(x, y) for x, y in zip(old[1], new[1])))
     if k == "it" and old[1] == new[1] and len(old) == len(new):
         out = ["it", old[1]]
@@ -493,6 +521,13 @@ class Interp:
     # ------------------------------------------------------------------ operands / rvalues
     def operand(self, st, depth, fv, o):
         if o[0] == "k":
+            if o[1].get("param"):
+                # a const generic parameter used as a value: looked up in the frame's type environment ("#<value>")
+                env = dict(st.frames[depth].get("__ty", ()))
+                g = env.get(str(o[1]["param"]).split("::")[-1], "")
+                if isinstance(g, str) and g.startswith("#") and g[1:].lstrip("-").isdigit():
+                    return I(int(g[1:]))
+                return top_of(o[1].get("ty", ""))
             v = self.constant(o[1])
             if v[0] == "cref":
                 return self.intern_const(st, v[1])
@@ -544,6 +579,15 @@ class Interp:
             return ("arr", tuple(self.from_json(x) for x in v))
         if isinstance(v, dict):
             if "adt" in v:
+                if v["adt"] == "core::arch::x86_64::__m256i":
+                    # vector constants are decoded as 4 u64 words: keep them in the exact u32-lane view (joins of packed words lose the lanes)
+                    ws = list(v["f"].values())[0]
+                    if isinstance(ws, list) and len(ws) == 4 and all(isinstance(w, int) for w in ws):
+                        lanes = []
+                        for w in ws:
+                            w &= (1 << 64) - 1
+                            lanes += [I(w & 0xFFFFFFFF), I(w >> 32)]
+                        return ("st", (("arr", tuple(lanes)),))
                 return ("st", tuple(self.from_json(x) for x in v["f"].values()))
             if "ref" in v:
                 # reference to constant data: keep the value (reads through refs to consts are by value)
@@ -721,6 +765,12 @@ class Interp:
             a, b = self.deconst(a), self.deconst(b)
             op = rv[1]
             ty = dst_ty
+            if op == "BitAnd" and getattr(self, "trunc_log", None) is not None and a[0] == "i" and b[0] == "i":
+                # a low-bit mask applied to a value that can exceed it: bits are dropped here (logged for the carry-companion rule)
+                for val, msk, oper in ((a, b, rv[2]), (b, a, rv[3])):
+                    m_ = msk[1]
+                    if msk[1] == msk[2] and m_ >= 255 and (m_ & (m_ + 1)) == 0 and val[2] > m_:
+                        self.trunc_log.setdefault((fv.f["key"], line, m_.bit_length()), (oper, val))
             if op.endswith("WithOverflow"):
                 m = re.match(r"^\((.*), bool\)$", dst_ty)
                 ty = m.group(1) if m else "u64"
@@ -1950,10 +2000,20 @@ class Interp:
         diverges = t.get("target") is None
         handled = False
         env = dict(st.frames[depth].get("__ty", ()))
-        gargs = [subst_ty(x, env) if isinstance(x, str) else x for x in (t.get("gargs") or [])]
+        def garg(x):
+            # const generic arguments travel through the type environment as "#<value>"
+            if isinstance(x, str):
+                return subst_ty(x, env)
+            if isinstance(x, (list, tuple)) and len(x) == 2 and x[0] == "const":
+                return "#%d" % x[1]
+            if isinstance(x, (list, tuple)) and len(x) == 2 and x[0] == "constparam":
+                return env.get(x[1], "#?")
+            return x
+        gargs = [garg(x) for x in (t.get("gargs") or [])]
+        self.cur_gargs = gargs
         rgargs = None
         if t.get("resolved") and t["resolved"].get("gargs") is not None:
-            rgargs = [subst_ty(x, env) if isinstance(x, str) else x for x in t["resolved"]["gargs"]]
+            rgargs = [garg(x) for x in t["resolved"]["gargs"]]
         callee_env = None
         if g is None and t.get("resolved") is None and t.get("callee_trait") and gargs and isinstance(gargs[0], str) and env:
             # trait method on a type parameter: resolve through the caller's type environment
